@@ -4,7 +4,7 @@ import GoomVerif.Model.Var
 
 * `c08.hist <var>=<val> … ; <op> ; <op> …` — one whole history per line, run on `Var.step false` (the code with fix F8);
   `c08.legacy.hist …` runs the same history on `Var.step true` (the code as published).  Answer: one observation per
-  op, joined by ` ; `: `<outcome>|<var>=<val>,…|<canceled flag of every handle>`.
+  op, joined by ` ; `: `<outcome>|<var>=<val>,…|<canceled flag of every handle>|<pkgName of builders 0 and 1: 0 = caller's package, p = Pkg(p)>`.
 * `c08.asg <value type> <variable type>` — `Var.assignable` on the type table (tie for the table itself).
 
 Variables are named `<type>` or `<type>2`; values are `nil` or `<type>:<rep>`. -/
@@ -106,7 +106,7 @@ def varIdx (d : D) (v : String) : Option Nat :=
 def observe (d : D) (o : Outcome) : String :=
   let vals := (List.range d.vars.length).map (fun i => s!"{d.vars.getD i "?"}={showVal (d.s.mem i).cur}")
   let flags := String.join (d.handles.map (fun i => if (d.s.mks i).canceled then "1" else "0"))
-  s!"{showOutcome o}|{String.intercalate "," vals}|{flags}"
+  s!"{showOutcome o}|{String.intercalate "," vals}|{flags}|{d.s.pkg 0}{d.s.pkg 1}"
 
 /-- one op: `none` = unparsable -/
 def opStep (lg : Bool) (d : D) (toks : List String) : Option (D × Outcome) :=
@@ -119,6 +119,10 @@ def opStep (lg : Bool) (d : D) (toks : List String) : Option (D × Outcome) :=
       let (s', o) := step lg d.s (.look b ue c)
       let keys := if d.keys.contains (b, ue, c) then d.keys else d.keys ++ [(b, ue, c)]
       some ({ d with s := s', handles := d.handles ++ [s'.ret], keys := keys }, o)
+    | _, _ => none
+  | ["pkg", b, p] =>
+    match b.toNat?, p.toNat? with
+    | some b, some p => let (s', o) := step lg d.s (.pkg b p); some ({ d with s := s' }, o)
     | _, _ => none
   | ["lookbad", k] | ["lookbad", k, _] =>
     (parseBad k).map (fun p => let (s', o) := step lg d.s (.lookBad p); ({ d with s := s' }, o))
